@@ -3,7 +3,7 @@ CONSTANTS
   Names = {"n1"}
   SizeSel = "edge"
   Limit <- LimNone
-  Single = FALSE
+  FName = "x_dir_dir.vpk"
   ArchIdx <- IdxAll
   NArch = 2
   Cs <- CsAll
